@@ -21,6 +21,41 @@ def find_folds(t):
     return [x for x in subterms(t) if x[0] == 'fold']
 
 
+def reported_identity(m, cell, core, allowed, R, rule, name, file):
+    """The value a view reports IS the expression the other rules examined: every value the output cell takes that
+    contains `core` equals Some(e) for an e in `allowed`, and last() hands the cell out unchanged."""
+    from .terms import cases
+    bad = None
+    n = 0
+    t = m.up_fields.get(cell)
+    try:
+        cs = cases(t)
+    except OverflowError:
+        cs = []
+        bad = 'too many cases'
+    for conds, leaf in cs:
+        if core not in set(subterms(leaf)):
+            continue
+        n += 1
+        val = leaf[1] if leaf[0] == 'some' else leaf
+        if val not in allowed:
+            bad = 'the stored output is %s: the examined expression is post-processed before it is reported' % tstr(val)[:110]
+    lr = m.last_ret
+    ok_last = False
+    incell = ('in', cell)
+    if lr == incell:
+        ok_last = True
+    else:
+        try:
+            ok_last = all(l == incell or l == ('none',) or l == ('some', ('payload', incell)) for _, l in cases(lr))
+        except OverflowError:
+            ok_last = False
+    if not ok_last:
+        bad = bad or 'last() does not return the output cell unchanged: %s' % tstr(lr)[:100]
+    R.ob(rule, name, bad is None and n > 0, 'the reported value is exactly the examined expression (%d case(s)) and last() returns it unchanged' % n
+         if bad is None and n > 0 else (bad or 'examined expression never stored'), file)
+
+
 def net_rules(F, R, tier):
     v = view_by_name(F).get('NoiseEliminationTechnology')
     if v is None:
@@ -44,6 +79,8 @@ def net_rules(F, R, tier):
         R.violation('NET-P1', 'NET:shape', 'output is not a pair-sum divided by a pair count', v.file)
         return
     num_t, den_t = ratio[2]
+    outcell = 'out' if 'out' in m.up_fields else [c for c in m.touched if c.endswith('out')][0]
+    reported_identity(m, outcell, ratio, {ratio}, R, 'NET-P0', 'NoiseEliminationTechnology', v.file)
     nmax = 9 if tier == 'quick' else 24
     ok1 = ok2 = ok3 = True
     why1 = why2 = why3 = ''
@@ -259,6 +296,7 @@ def cog_rules(F, R, tier):
          'the previous output is kept under a data-dependent condition %s' % holds[0][1][:2], v.file)
     # offset (n+1)/2 and guard
     okc = False
+    full_exprs = set()
     for x in subterms(out_t):
         if x[0] == 'op' and x[1] == 'add' and ratio in x[2]:
             other = x[2][1] if x[2][0] == ratio else x[2][0]
@@ -266,6 +304,11 @@ def cog_rules(F, R, tier):
                 nump = comm(other[2][0])
                 if nump[0] == 'op' and nump[1] == 'add' and lit(1.0) in nump[2] and any(y[0] == 'op' and y[1] == 'from_int' for y in nump[2]):
                     okc = True
+                    full_exprs.add(x)
+    if full_exprs:
+        reported_identity(m, 'out', ratio, full_exprs, R, 'COG-O', 'CenterOfGravity', v.file)
+    else:
+        R.ob('COG-O', 'CenterOfGravity', False, 'no expression ratio + (n+1)/2 found', v.file)
     R.ob('COG-C', 'CenterOfGravity', okc, 'constant term is (n+1)/2' if okc else 'constant term is not (n+1)/2', v.file)
     guard = False
     zero_branch = False
@@ -277,11 +320,11 @@ def cog_rules(F, R, tier):
             without = x[3] if with_ratio is x[2] else x[2]
             if r is not None:
                 rr = r if with_ratio is x[2] else ({'<', '=', '>'} - r)
-                if '=' not in rr:
+                if rr == {'<', '>'}:
                     guard = True
                 zero_branch = without == ('some', lit(0.0))
-    R.ob('COG-G', 'CenterOfGravity', guard and zero_branch, 'ratio formed only when the denominator is non-zero, 0 reported otherwise' if guard and zero_branch else
-         'zero-denominator branch is missing or does not report 0', v.file)
+    R.ob('COG-G', 'CenterOfGravity', guard and zero_branch, 'ratio formed exactly when the denominator is non-zero (either sign), 0 reported otherwise' if guard and zero_branch else
+         'the ratio is not formed for every non-zero denominator, or the zero-denominator branch does not report 0', v.file)
 
 
 def cti_rules(F, R):
